@@ -179,3 +179,27 @@ pub fn converge() {
     assert!(same_state(&c.reopen(), &a.m), "a replica opened by one reload exposes a different state");
     sym::reach(1);
 }
+
+/// C01: two replicas concurrently submit documents that may create the same new objects with the same content
+/// (identical revisions appear in two different blocks); after exchange every route gives the same state.
+/// params: [k orders]
+pub fn concurrent_creations() {
+    let k = sym::param(0) as usize;
+    let (mut a, mut b) = base_pair(doc_with(&["a", "b"], &["x".to_string(), "x".to_string()], "t"));
+    a.m.update(any_doc(k, 0)).expect("update a");
+    a.m.commit(None).expect("commit a");
+    b.m.update(any_doc(k, 0)).expect("update b");
+    b.m.commit(None).expect("commit b");
+    let a0 = a.snapshot();
+    a.pull(&b);
+    b.pull(&a0);
+    a.pull(&b);
+    assert!(same_state(&a.m, &b.m), "replicas holding the same blocks expose different states");
+    assert!(same_state(&a.reopen(), &a.m), "reload differs from the incrementally built state");
+    assert!(same_state(&b.reopen(), &a.m), "reload of the other storage differs");
+    // every object that is visible has a readable value
+    for id in a.m.get_all_objects() {
+        assert!(a.m.get_value(&id, None).is_ok(), "a visible object has no readable value");
+    }
+    sym::reach(1);
+}
